@@ -46,6 +46,19 @@ def random_specs(seed, n=12):
         for i, c in enumerate(conts):
             nodes[c] = {"content": expr(i)}
         nodes = {"doc": {"content": expr()}, **nodes}
+        # attribute declarations (own generator, so the shapes above stay what they were): an explicit default of None
+        # is still a default - such a type stays generatable - while an attribute without default makes it non-generatable
+        rnd2 = _r.Random(seed * 977 + tries)
+        for nm in list(nodes):
+            if nm in ("doc", "text") or nodes[nm].get("attrs"):
+                continue
+            q = rnd2.random()
+            if q < 0.3:
+                nodes[nm] = {**nodes[nm], "attrs": {"k": {"default": None}}}
+            elif q < 0.4:
+                nodes[nm] = {**nodes[nm], "attrs": {"k": {"default": None}, "lvl": {"default": 1}}}
+            elif q < 0.45:
+                nodes[nm] = {**nodes[nm], "attrs": {"k": {"default": 0}, "req": {}}}
         spec = {"nodes": nodes}
         try:
             Schema(spec)
@@ -57,7 +70,7 @@ def random_specs(seed, n=12):
 
 def extra_specs(seed=1):
     """small schemas with awkward content expressions (required sequences, non-generatable types)"""
-    base = lambda doc, **more: {"nodes": {"doc": {"content": doc}, "a": {"group": "g", "content": "text*"}, "b": {"group": "g", "content": "text*"},  # noqa: E731
+    base = lambda doc, **more: {"nodes": {"doc": {"content": doc}, "a": {"group": "g", "content": "text*", "attrs": {"id": {"default": None}}}, "b": {"group": "g", "content": "text*"},  # noqa: E731
                                           "c": {"content": "g+"}, "r": {"attrs": {"x": {}}, "content": "text*"}, "w": {"content": "c a?"}, "text": {"group": "inline"}, **more}}
     out = {
         # the same wrapper reachable from two parents, one of which needs a sibling after it
@@ -146,7 +159,14 @@ def run(tier, seed, findings):
     rnd = random.Random(seed)
     schemas = [(n,) + D.schema(n) for n in SCHEMAS]
     for n, spec in extra_specs(seed).items():
-        schemas.append((n, Schema(spec), orc.OSchema(spec)))
+        try:
+            schemas.append((n, Schema(spec), orc.OSchema(spec)))
+        except SyntaxError as e:
+            # the hand-written specs x1..x8 have a generatable type in every required position: refusing one says
+            # that no filler exists where one does (random specs that the library refuses were never admitted)
+            call = dict(fn="Schema", spec=n, nodes={k: v for k, v in spec["nodes"].items()})
+            rec.case(("schema", n), sample=call)
+            rec.violation("schema-refused", f"valid schema refused: {e}", call)
     for name, S, O in schemas:
         gen_kids = {}
         for tn, nt in O.nodes.items():
